@@ -666,7 +666,15 @@ class SQLitePool(Pool):
         elif not pool.create_db and not os.path.exists(filename):
             throw(IOError, "Database file is not found: %r" % filename)
 
-        pool.con = con = sqlite.connect(filename, isolation_level=None, **pool.kwargs)
+        con = sqlite.connect(filename, isolation_level=None, **pool.kwargs)
+        try: pool._init_connection(con)
+        except:
+            # pool.con must never refer to a half-initialised connection: the next connect() would silently reuse it
+            # (or, in a thread whose pool has no `pid` yet, fail with AttributeError in Pool.connect for ever)
+            con.close()
+            raise
+        pool.con = con
+    def _init_connection(pool, con):
         con.text_factory = _text_factory
 
         def create_function(name, num_params, func):
